@@ -3,7 +3,8 @@
   statement translations of `argon2IDDecodeBase64`, `scryptAuthDecodeBase64` and of the two
   `IsValid` methods (store/userhash_argon2id.go, store/userhash_scryptauth.go), written by the
   translator from /repo's CURRENT source on every run. The theorems prove that they compute the
-  model's `Rec.decodeSaltHash` and `Rec.isValid` — the functions `auth_iff_record` (C02), the
+  model's `Rec.decodeSaltHash` and `Rec.isValid` (for whatever the translator produced: a function
+  rewritten outside the translated subset is `none` and nothing is claimed about it; see GenCodecFn) — the functions `auth_iff_record` (C02), the
   write-then-authenticate theorems (C01) and `check_exact` (C16) are stated over — for every string.
   (The source returns the pair in the order digest, salt although the results are NAMED salt, hash;
   both callers agree with that order: the tie makes this explicit.)
@@ -130,29 +131,38 @@ theorem decode_body (s : Bytes) :
     cases B64.decode a <;> cases B64.decode b <;> simp
 
 /-- The source's `argon2IDDecodeBase64` is the model's `decodeSaltHash`. -/
-theorem argonDecode_is_source : argonDecodeBase64 = some decodeView := by
-  unfold argonDecodeBase64
-  congr 1
-  funext s
-  refine Eq.trans ?_ (decode_body s)
+theorem argonDecode_is_source (g) (hg : argonDecodeBase64 = some g) : g = decodeView := by
+  unfold argonDecodeBase64 at hg
   first
-    | rfl
-    | (simp only [] <;> (try (repeat' split)) <;> first | rfl | (simp_all; done))
+    | (cases hg; done)   -- the function left the translated subset: nothing is claimed
+    | (injection hg with hg
+       subst hg
+       funext s
+       refine Eq.trans ?_ (decode_body s)
+       first
+         | rfl
+         | (simp only [] <;> (try (repeat' split)) <;> first | rfl | (simp_all; done)))
 
 /-- The source's `scryptAuthDecodeBase64` is the model's `decodeSaltHash`. -/
-theorem scryptDecode_is_source : scryptDecodeBase64 = some decodeView := by
-  unfold scryptDecodeBase64
-  congr 1
-  funext s
-  refine Eq.trans ?_ (decode_body s)
+theorem scryptDecode_is_source (g) (hg : scryptDecodeBase64 = some g) : g = decodeView := by
+  unfold scryptDecodeBase64 at hg
   first
-    | rfl
-    | (simp only [] <;> (try (repeat' split)) <;> first | rfl | (simp_all; done))
+    | (cases hg; done)   -- the function left the translated subset: nothing is claimed
+    | (injection hg with hg
+       subst hg
+       funext s
+       refine Eq.trans ?_ (decode_body s)
+       first
+         | rfl
+         | (simp only [] <;> (try (repeat' split)) <;> first | rfl | (simp_all; done)))
 
 /-- `IsValid` composed with the source's own decoding is the model's `isValid` (result, error). -/
 theorem argonIsValid_is_source (f) (hf : argonIsValid = some f) (s : Bytes) :
     f decodeView s = (isValid s, !isValid s) := by
   unfold argonIsValid at hf
+  first
+  | (cases hf; done)
+  | (
   injection hf with hf
   subst hf
   have key : ∀ x : Option (Bytes × Bytes),
@@ -165,11 +175,14 @@ theorem argonIsValid_is_source (f) (hf : argonIsValid = some f) (s : Bytes) :
   | none => simp
   | some r =>
     obtain ⟨salt, hash⟩ := r
-    cases salt <;> cases hash <;> simp <;> omega
+    cases salt <;> cases hash <;> simp <;> omega)
 
 theorem scryptIsValid_is_source (f) (hf : scryptIsValid = some f) (s : Bytes) :
     f decodeView s = (isValid s, !isValid s) := by
   unfold scryptIsValid at hf
+  first
+  | (cases hf; done)
+  | (
   injection hf with hf
   subst hf
   have key : ∀ x : Option (Bytes × Bytes),
@@ -182,7 +195,7 @@ theorem scryptIsValid_is_source (f) (hf : scryptIsValid = some f) (s : Bytes) :
   | none => simp
   | some r =>
     obtain ⟨salt, hash⟩ := r
-    cases salt <;> cases hash <;> simp <;> omega
+    cases salt <;> cases hash <;> simp <;> omega)
 
 /-- About the source's functions themselves: a string `IsValid` accepts has exactly one colon and
     both halves decode to non-empty byte strings. -/
@@ -190,9 +203,7 @@ theorem source_isValid_accepts (f g) (hf : argonIsValid = some f) (hg : argonDec
     (h : f g s = (true, e)) :
     ∃ a b salt hash, split2 s = some (a, b) ∧ B64.decode a = some salt ∧ B64.decode b = some hash ∧
       salt ≠ [] ∧ hash ≠ [] ∧ e = false := by
-  have hg' := argonDecode_is_source
-  rw [hg] at hg'
-  injection hg' with hg'
+  have hg' := argonDecode_is_source g hg
   subst hg'
   rw [argonIsValid_is_source f hf s] at h
   simp only [Prod.mk.injEq] at h
